@@ -473,7 +473,7 @@ func (l *logStore) UpdateData(s *swap.SwapStateMachine) error {
 		fl := recFlags(s)
 		fl["pay"] = "none"
 		if s.Data.OpeningTxBroadcasted != nil {
-			if inv, ok := l.w.ln.invoices[s.Data.OpeningTxBroadcasted.Payreq]; ok {
+			if inv, ok := l.w.ln.inv(s.Data.OpeningTxBroadcasted.Payreq); ok {
 				fl["pay"] = l.w.ln.payments[inv.hash].String()
 			}
 		}
@@ -525,11 +525,13 @@ func (l *logStore) UpdateData(s *swap.SwapStateMachine) error {
 				}
 			}
 		}
+		l.w.ln.invMu.RLock()
 		for _, inv := range l.w.ln.invoices {
 			if inv.ours && inv.swapId == id && inv.kind == swap.INVOICE_CLAIM && inv.paidToUs {
 				fl["invpaid"] = "1"
 			}
 		}
+		l.w.ln.invMu.RUnlock()
 		l.w.note(Obs{Kind: "persist", Swap: l.w.name(s.SwapId.String()), A: fl})
 	}
 	if rep && err == nil {
@@ -744,15 +746,29 @@ type simLN struct {
 	payAttempts int
 	idempotent  bool              // back-end returns the existing payment instead of refusing a second one
 	resolve     map[string]string // how an in-flight HTLC resolves when the idempotent back-end waits for it
+	invMu       sync.RWMutex      // guards the invoices map (C18 runs handlers concurrently on one world)
 	advChain    string            // after every failed claim payment attempt this chain grows by advBlocks
 	advBlocks   uint32
+}
+
+func (l *simLN) inv(payreq string) (*simInvoice, bool) {
+	l.invMu.RLock()
+	defer l.invMu.RUnlock()
+	i, ok := l.invoices[payreq]
+	return i, ok
+}
+
+func (l *simLN) putInv(payreq string, i *simInvoice) {
+	l.invMu.Lock()
+	l.invoices[payreq] = i
+	l.invMu.Unlock()
 }
 
 // foreignInvoice registers an invoice the PEER created (so that DecodePayreq and payments work).
 func (l *simLN) foreignInvoice(hash, preimage string, msat uint64, cltv int64, kind swap.InvoiceType, swapId string) string {
 	l.nInv++
 	payreq := fmt.Sprintf("lnsim%dp%s", l.nInv, hash[:8])
-	l.invoices[payreq] = &simInvoice{payreq: payreq, hash: hash, preimage: preimage, msat: msat, cltv: cltv, kind: kind, swapId: swapId}
+	l.putInv(payreq, &simInvoice{payreq: payreq, hash: hash, preimage: preimage, msat: msat, cltv: cltv, kind: kind, swapId: swapId})
 	return payreq
 }
 
@@ -763,7 +779,7 @@ func (l *simLN) DecodePayreq(payreq string) (string, uint64, int64, error) {
 	if f := l.w.fault("decode"); f != "" {
 		return "", 0, 0, errors.New("sim decode: " + f)
 	}
-	inv, ok := l.invoices[payreq]
+	inv, ok := l.inv(payreq)
 	if !ok {
 		return "", 0, 0, errors.New("sim: invoice not decodable")
 	}
@@ -782,7 +798,7 @@ func (l *simLN) GetPayreq(msat uint64, preimage string, swapId string, memo stri
 	h := sha256.Sum256(pre)
 	l.nInv++
 	payreq := fmt.Sprintf("lnsim%dm%s", l.nInv, hex.EncodeToString(h[:4]))
-	l.invoices[payreq] = &simInvoice{payreq: payreq, hash: hex.EncodeToString(h[:]), preimage: preimage, msat: msat, cltv: int64(cltv), expiry: expiry, kind: it, swapId: swapId, ours: true}
+	l.putInv(payreq, &simInvoice{payreq: payreq, hash: hex.EncodeToString(h[:]), preimage: preimage, msat: msat, cltv: int64(cltv), expiry: expiry, kind: it, swapId: swapId, ours: true})
 	l.w.secrets[preimage] = "preimage/" + it.String()
 	l.w.note(Obs{Kind: "invoice", Swap: l.w.name(swapId), A: map[string]string{"type": it.String(), "msat": fmt.Sprint(msat), "cltv": fmt.Sprint(cltv), "expiry": fmt.Sprint(expiry), "memo": memoShape(memo), "hash": hex.EncodeToString(h[:4])}})
 	if rep {
@@ -805,7 +821,7 @@ func (l *simLN) pay(kind, payreq, channel string, maxCltv uint32) (string, error
 		return "", errDead
 	}
 	l.payAttempts++
-	inv, known := l.invoices[payreq]
+	inv, known := l.inv(payreq)
 	if !known {
 		return "", errors.New("sim: unknown invoice")
 	}
@@ -882,7 +898,7 @@ func (l *simLN) RecoverClaimPayment(payreq string) (string, error) {
 	if l.w.dead {
 		return "", errDead
 	}
-	inv, ok := l.invoices[payreq]
+	inv, ok := l.inv(payreq)
 	if !ok {
 		return "", errors.New("sim: unknown invoice")
 	}
@@ -906,7 +922,7 @@ func (l *simLN) AddPaymentNotifier(swapId string, payreq string, it swap.Invoice
 	l.w.note(Obs{Kind: "notifier", Swap: l.w.name(swapId), A: map[string]string{"type": it.String()}})
 	// like the real back-ends (lnd SubscribeSingleInvoice, CLN waitinvoice): a notifier registered for an invoice
 	// that is already settled fires at once, from the back-end's own goroutine (here: after the current step)
-	if inv, ok := l.invoices[payreq]; ok && inv.ours && inv.paidToUs {
+	if inv, ok := l.inv(payreq); ok && inv.ours && inv.paidToUs {
 		l.w.deferred = append(l.w.deferred, func() {
 			if l.payCb != nil && !l.w.dead && l.notifiers[swapId+"/"+it.String()] {
 				l.w.note(Obs{Kind: "notifier-refire", Swap: l.w.name(swapId), A: map[string]string{"type": it.String()}})
